@@ -41,6 +41,28 @@ func genRows[S algebra.PrimeFieldElement[S]](r *Rng, f algebra.PrimeField[S], m,
 			rows[i][j] = smallOrRandom(r, f, pSmall)
 		}
 	}
+	// permutation-structured matrices (a permuted diagonal plus sparse noise below the pivots):
+	// elimination then needs several row swaps (zero pivots), so sign/parity handling of the
+	// determinant and pivot bookkeeping of the solvers are exercised
+	if r.IntN(4) == 0 {
+		k := min(m, n)
+		perm := r.Perm(k)
+		for i := range rows {
+			for j := range rows[i] {
+				rows[i][j] = f.Zero()
+			}
+		}
+		for i := 0; i < k; i++ {
+			rows[i][perm[i]] = smallOrRandom(r, f, 30)
+			if rows[i][perm[i]].IsZero() && r.IntN(4) != 0 {
+				rows[i][perm[i]] = f.One()
+			}
+		}
+		for e := r.IntN(3); e > 0; e-- {
+			rows[r.IntN(m)][r.IntN(n)] = smallOrRandom(r, f, 50)
+		}
+		return rows
+	}
 	// frequently make a row a combination of others so that rank deficiency is common
 	if m >= 2 && r.IntN(3) == 0 {
 		i, k := r.IntN(m), r.IntN(m)
